@@ -1,5 +1,5 @@
 #include "slu_mt_ddefs.h"
-int_t g_map0[CAP+1], g_lead, g_i, g_nextl0, g_nextu0, g_nextlu0, g_nzlu0; int g_fits;
+int_t g_map0[CAP+1], g_lead, g_i, g_nextl0, g_nextu0, g_nextlu0, g_nzlu0; int g_abort_ok;
 extern int g_locks, g_unlocks;
 int_t in_pnum, in_jcol, in_num; int_t in_prev_next;
 pxgstrf_shared_t in_sh; GlobalLU_t in_Glu; Gstat_t in_Gstat; mutex_t in_locks[NO_GLU_LOCKS]; int_t in_map[CAP+1];
@@ -9,8 +9,8 @@ void h_glu_lusup(void) {
   g_ret = Glu_alloc(in_pnum, in_jcol, in_num, LUSUP, &in_prev_next, &in_sh);
   __CPROVER_assert(0, "canary: Glu_alloc(LUSUP) returns");
   if (in_jcol != g_lead) __CPROVER_assert(0, "canary: non-leading column of an H-supernode");
-  /* what the code does NOT guarantee (bound check is #if 0'd): these two "canaries" are reachable, i.e. the
-     function returns normally with the slot pointer past the array / past the following slot */
-  if (in_map[g_lead] > in_Glu.nzlumax) __CPROVER_assert(0, "canary: lusup_beyond_nzlumax - normal return with map_in_sup[fsupc] > nzlumax (no check in the code)");
+  /* what the code does NOT guarantee: this "canary" is reachable, i.e. the function returns normally with the slot
+     pointer past the following slot's start */
+  if (in_map[g_lead] == in_Glu.nzlumax && in_num > 0) __CPROVER_assert(0, "canary: request that exactly fills lusup");
   if (g_lead < g_i && g_map0[g_i] >= g_map0[g_lead] && in_map[g_lead] > in_map[g_i]) __CPROVER_assert(0, "canary: lusup_beyond_next_slot - normal return with the slot pointer past a later slot start (no check in the code)");
 }
